@@ -231,13 +231,13 @@ Section Ops.
         unfold P2.p_find in F.
         rewrite arun_act, (sem_lkget _ _ _ _ R).
         destruct (d_get (P2.pr_lookup (PC2.ps_ring p)) k) as [n|] eqn:GL; [|discriminate].
-        cbn beta iota. rewrite (rv_sim _ S s _ n R C (cl_lookup_get _ _ _ _ C GL)), F.
+        cbn beta iota. rewrite arun_stat, (rv_sim _ S s _ n R C (cl_lookup_get _ _ _ _ C GL)), F.
         eexists. split; [reflexivity|]. simpl. exact R.
       + destruct (R2.rep_move _ _ _ _ _ RP NR G) as [pr' [n [ids' [E [_ [VV _]]]]]].
         rewrite E, VV. rewrite arun_bind.
         pose proof (mv_sim _ S s _ k R C) as MV. rewrite E in MV.
         destruct MV as [s1 [E1 [R1 [C1 Hn]]]]. rewrite E1. cbn beta iota.
-        rewrite (rv_sim _ S s1 _ n R1 C1 Hn), VV.
+        rewrite arun_stat, (rv_sim _ S s1 _ n R1 C1 Hn), VV.
         eexists. split; [reflexivity|]. simpl. exact R1.
     - destruct (R2.rep_absent _ _ _ _ RP G) as [GL [E _]].
       destruct cls; simpl cls2; cbv iota.
